@@ -373,7 +373,7 @@ def externally_stopped(ev):
     out = {}
     for e in ev:
         if e[2] == 'finish' and e[3] not in out and (e[4]['state'] == 'running' or
-                                                    (e[4]['state'] == 'checking' and not e[4].get('via_pm'))):
+                                                    (e[4]['state'] in ('checking', 'suspended') and not e[4].get('via_pm'))):
             out[e[3]] = e[0]
     return out
 
